@@ -230,14 +230,22 @@ def ncomp_from_gmm(vals: np.ndarray,
 
     # Run the Gaussian Mixture fit for all cases ... should we do anything more fancy here ?
     for n_val in ncomp:
-        models[n_val] = GaussianMixture(n_val, covariance_type='spherical',
-                                        random_state=random_seed).fit(vals)
+        try:
+            models[n_val] = GaussianMixture(n_val, covariance_type='spherical',
+                                            random_state=random_seed).fit(vals)
+        except ValueError:
+            # scikit-learn cannot fit this many components (collapsed samples leading to an
+            # ill-defined covariance). This model shall never be taken as the best one.
+            logger.warning(' GaussianMixture(%i) could not be fitted. Ruling it out.', n_val)
+            models[n_val] = None
 
-    # Extract the AICS and BICS scores
+    # Extract the AICS and BICS scores (the larger the score, the worst the fit)
     if scores == 'AIC':
-        abics = np.array([models[item].aic(vals) for item in models])
+        abics = np.array([np.inf if models[item] is None else models[item].aic(vals)
+                          for item in models])
     elif scores == 'BIC':
-        abics = np.array([models[item].bic(vals) for item in models])
+        abics = np.array([np.inf if models[item] is None else models[item].bic(vals)
+                          for item in models])
     else:
         raise AmpycloudError(f'Unknown scores: {scores}')
 
@@ -245,6 +253,8 @@ def ncomp_from_gmm(vals: np.ndarray,
     # To avoid problems down the line, we shall boost the abics score of such cases to make sure
     # they are NOT taken as the best model
     for (n_id, n_val) in enumerate(ncomp):
+        if models[n_val] is None:
+            continue
         if (n_eff := len(np.unique(models[n_val].predict(vals)))) < n_val:
             logger.warning(' %i out of %i sub-layers populated by GaussianMixture(%i) - see #119. '
                            'Ruling out %i components as a possibility.',
